@@ -161,6 +161,20 @@ int main(int argc, char** argv) {
             for (int r = 0; r < 9; r++) do_cplx(r, cv, out); }
         out.count("random_vectors");
     }
+    // extreme magnitudes (the whole finite range of double, incl. values whose squares under/overflow and subnormals): the order
+    // must still be by |x| / Re / |Im| exactly; mixed with ordinary values, with ties and sign pairs
+    {
+        const std::vector<double> ext = {1e-320, 4.9e-324, 1e-300, 3e-200, 1e-180, 2e-170, 1e-162, 1.5e-154, 1e-100, 1e-20, 0.5, 1, 3, 1e20, 1e100, 1.2e154, 1.4e154, 1e160, 3e200, 1e300, 1.7e308};
+        int next = a.thorough() ? 1500 : 250;
+        for (int t = 0; t < next; t++) {
+            int len = rng.range(2, 10);
+            std::vector<double> v(len); for (int i = 0; i < len; i++) v[i] = ext[rng.below(ext.size())] * (rng.coin() ? 1 : -1);
+            for (int r = 0; r < 9; r++) do_real(r, v, out, false);
+            std::vector<CD> cv(len); for (int i = 0; i < len; i++) { double m = ext[rng.below(ext.size() - 1)]; int k = rng.range(0, 3); cv[i] = k == 0 ? CD(m, 0) : k == 1 ? CD(0, -m) : k == 2 ? CD(m, m * 0.5) : CD(-m * 0.5, m); }
+            for (int r = 0; r < 9; r++) do_cplx(r, cv, out);
+            out.count("extreme_vectors");
+        }
+    }
     solver_rules(out);
     out.finish();
     return 0;
